@@ -28,6 +28,26 @@ CHECKS = {
 
 NOT_APPLICABLE = []
 
+CHECKS['C14'] = (
+    'symbolic execution (symx) of the real YAML loader, jsonschema '
+    'validation, spec classes and definition services: the mutation applied '
+    'to a valid definition (site, operator, replacement value, formatting of '
+    'the workbook text) is a solver choice explored exhaustively, and integer '
+    'leaves are symbolic integers (an int subclass carrying a z3 term) that '
+    'flow through the real jsonschema validators and spec constructors; z3 '
+    'decides every path',
+    'For 5 base documents and every single structural mutation from the '
+    'catalogue (wrong types, missing / extra / odd keys, malformed '
+    'expressions), validation and the create / update services answer with '
+    'acceptance or a definition error, never an internal error or a hang; an '
+    'accepted spec equals the spec rebuilt from its stored form and what the '
+    'database holds is what was written; for ALL integers at every integer '
+    'leaf policies are accepted iff >= 0 and a join count only if it can be '
+    'met; every workbook member stored is the member written, for every '
+    'explored spelling of the workbook text. Arbitrary non-YAML text is '
+    'outside the claim.',
+    '§3 C14')
+
 CHECKS['C16'] = (
     'symbolic execution of every exposed controller method (enumerated from '
     'the live controller tree) with the verdict of each policy rule as a '
